@@ -124,6 +124,20 @@ func runOne(r *sim.Run) {
 		return ks
 	}
 	nSteps := t.Range(1, 200, "steps")
+	// a state with more entries than the cache holds at its REAL capacity (E*50 = 600 in the tiny configuration): the
+	// clear-at-capacity then fires in the middle of ordinary computations, not only under the shrunken knob values
+	if t.Prob(1, 80, "bulk_state") {
+		types.MaxKeyLevelCacheSize = types.EpochLength * 50
+		n := types.MaxKeyLevelCacheSize - 3 + t.Choose(700, "bulk_entries")
+		for i := 0; i < n; i++ {
+			h := refHash([]byte{byte(i), byte(i >> 8), 0xB7})
+			var k [31]byte
+			copy(k[:], h[:31])
+			set[k] = newVal([]int{0, 5, 32, 33, 80}[i%5])
+		}
+		nSteps = t.Range(1, 6, "bulk_steps")
+		r.Count("probe:more_entries_than_the_real_cache_capacity", 1)
+	}
 	if r.Tier == "quick" && nSteps > 80 {
 		nSteps = 80
 	}
